@@ -291,7 +291,7 @@ Proof.
   intros [H1 H2 H3 H4 H5 H6] Ht. constructor; cbn [view_of upd_threads v_ctxs v_byid v_threads v_glog v_dlog] in *; auto.
 Qed.
 
-Lemma inv_send_finish s t c : Inv s -> Inv (send_finish s t c).
+Lemma inv_send_finish s t c e : Inv s -> Inv (send_finish s t c e).
 Proof.
   intro HI. unfold send_finish. destruct (aget c (ctxs s)) as [x|] eqn:Ex; [|exact HI].
   destruct (match c_sendMsg x with Some (t', _) => t' =? t | None => false end) eqn:Em; [|apply inv_emit, HI].
